@@ -72,7 +72,10 @@ struct seq {
     int _step = 1;
 
     constexpr FASTOR_INLINE seq(int _f, int _l, int _s=1) : _first(_f), _last(_l), _step(_s) {}
-    constexpr FASTOR_INLINE seq(int num) : _first(num), _last(num+1), _step(1) {}
+    // A single integer used as a slice. The views add (dimension + 1) to a range whose both ends are
+    // negative (last==-1 means "up to the end"), so for num < -1 the range has to be [num-1,num) for the
+    // integer to count from the end like scalar indexing does; num == -1 is [-1,0), handled by the views
+    constexpr FASTOR_INLINE seq(int num) : _first(num < -1 ? num-1 : num), _last(num < -1 ? num : num+1), _step(1) {}
 
     template<int F, int L, int S=1>
     constexpr FASTOR_INLINE seq(fseq<F,L,S>) : _first(F), _last(L), _step(S) {}
